@@ -65,7 +65,14 @@ def subset(c, name, ncaps):
     return {cap for cap in CAPS[:ncaps] if c.choice(f"{name}_{cap.name}", [False, True])}
 
 
-def history(ncaps, k, ntools, entries=None):
+def capname(x):
+    return x.name if hasattr(x, "name") else repr(x)
+
+
+FOREIGN = ["shell", "kernel_module"]   # labels that are no Capability member (nor the value of one)
+
+
+def history(ncaps, k, ntools, entries=None, foreign=False):
     NAMES = [f"t{i}" for i in range(ntools)]
 
     def h(c):
@@ -80,6 +87,12 @@ def history(ncaps, k, ntools, entries=None):
             gen[0] += 1
             g = gen[0]
             req = subset(c, f"req{g}", ncaps)
+            if foreign:
+                # declared requirement outside the enum: never a member of any allowed set, so it must refuse the tool
+                # whenever a restriction is configured (set inclusion, not "known capabilities only")
+                lab = c.choice(f"foreign{g}", [None] + FOREIGN)
+                if lab is not None:
+                    req = req | {lab}
             runs[g] = 0
 
             def body(*a, **kw):
@@ -93,7 +106,7 @@ def history(ncaps, k, ntools, entries=None):
             else:
                 mito.engulf_tool(LegacyTool(name, body, req))
             reg[name] = (g, req)
-            trace.append(f"register {name}#{g} req={sorted(x.name for x in req)} via {kind}")
+            trace.append(f"register {name}#{g} req={sorted(capname(x) for x in req)} via {kind}")
 
         register(NAMES[0])
         for i in range(k):
@@ -129,7 +142,7 @@ def history(ncaps, k, ntools, entries=None):
                     g, req = reg[nm]
                     if not (allowed is None or req <= allowed):
                         c.check("C03.a", runs[g] == before.get(g, 0), {"what": "disallowed tool ran from a nested position of an expression", "expr": expr,
-                                                                        "tool": nm, "required": sorted(x.name for x in req), **info})
+                                                                        "tool": nm, "required": sorted(capname(x) for x in req), **info})
                 trace.append(f"nested {expr}")
                 continue
             elif entry == "shifty_call":
@@ -147,7 +160,7 @@ def history(ncaps, k, ntools, entries=None):
                     g, req = reg[nm]
                     if not (allowed is None or req <= allowed):
                         c.check("C03.a", runs[g] == before.get(g, 0), {"what": "disallowed tool ran through a request object that changed its name between check and use",
-                                                                        "tool": nm, "required": sorted(x.name for x in req), **info})
+                                                                        "tool": nm, "required": sorted(capname(x) for x in req), **info})
                 trace.append(f"shifty {first}->{then}@{sw_after}")
                 continue
             elif entry == "execute_tool_call":
@@ -189,14 +202,14 @@ def history(ncaps, k, ntools, entries=None):
                     c.check("C03.c", success is True, {"what": "permitted tool call reported failure", "tool": name, **info})
                 else:
                     c.check("C03.b", success is False, {"what": "refused tool call not reported as failure", "tool": name,
-                                                        "required": sorted(x.name for x in req), **info})
+                                                        "required": sorted(capname(x) for x in req), **info})
             for g in runs:
                 delta = runs[g] - before.get(g, 0)
                 name = [n for n, (gg, _) in reg.items() if gg == g]
                 if delta > expect[g]:
                     req = reg[name[0]][1] if name else set()
                     c.check("C03.a", False, {"what": "tool body ran without the required capabilities being allowed (or a replaced tool ran)",
-                                             "generation": g, "ran": delta, "expected": expect[g], "required": sorted(x.name for x in req), **info})
+                                             "generation": g, "ran": delta, "expected": expect[g], "required": sorted(capname(x) for x in req), **info})
                 else:
                     c.check("C03.a", True)
                     c.check("C03.c", delta == expect[g], {"what": "permitted tool did not run exactly once per request", "generation": g,
@@ -207,9 +220,10 @@ def history(ncaps, k, ntools, entries=None):
 
 HARNESSES = {
     "history": {"make": history, "witness_every": 37,
-                "jobs": lambda tier: ([{"ncaps": 1, "k": 3, "ntools": 1, "entries": ["metabolize_auto", "execute_tool_call"]}, {"ncaps": 1, "k": 2, "ntools": 2}] if tier == "quick" else
+                "jobs": lambda tier: ([{"ncaps": 1, "k": 3, "ntools": 1, "entries": ["metabolize_auto", "execute_tool_call"]}, {"ncaps": 1, "k": 2, "ntools": 2},
+                                       {"ncaps": 1, "k": 1, "ntools": 1, "foreign": True}] if tier == "quick" else
                                       [{"ncaps": 1, "k": 3, "ntools": 1}, {"ncaps": 2, "k": 2, "ntools": 2}, {"ncaps": 3, "k": 2, "ntools": 1},
-                                       {"ncaps": 6, "k": 1, "ntools": 1}]),
+                                       {"ncaps": 6, "k": 1, "ntools": 1}, {"ncaps": 2, "k": 2, "ntools": 1, "foreign": True}]),
                 "clauses": ["C03.a", "C03.b", "C03.c"]},
 }
 
@@ -220,8 +234,8 @@ META = {
         "technique": "exhaustive symbolic-choice enumeration through mitochondria.py/nucleus.py entry points with side-effect counters (solver share: none, sets are concrete per path)",
     },
     "files": ["operon_ai/organelles/mitochondria.py", "operon_ai/organelles/nucleus.py"],
-    "bounds": {"quick": "1 capability (allowed in {none-restriction, {}, {c}}; required in {{}, {c}}), one tool name, 1 registration + k=3 further actions (call / re-register under the same name / call ...) through metabolize and execute_tool_call; 2 tool names with k=2 through all entry points incl. a request object that changes its name between reads; 2 capabilities, 2 tool names, k=1; tool loop max_iterations=2 with <=2 calls per round",
-               "thorough": "1 capability, one tool, k=3 through all entry points; 2 capabilities, 2 tools, k=2; 3 capabilities, one tool, k=2; all 6 capabilities with one tool and k=1 (3 capabilities x 2 tools x k=2 and 2 x 2 x k=3 exceed 5 minutes each on 16 cores: outside)"},
+    "bounds": {"quick": "1 capability (allowed in {none-restriction, {}, {c}}; required in {{}, {c}}), one tool name, 1 registration + k=3 further actions (call / re-register under the same name / call ...) through metabolize and execute_tool_call; 2 tool names with k=2 through all entry points incl. a request object that changes its name between reads; 2 capabilities, 2 tool names, k=1; required sets that also carry a label outside the Capability enum ('shell', 'kernel_module'): 1 capability, one tool, k=1, all entry points; tool loop max_iterations=2 with <=2 calls per round",
+               "thorough": "1 capability, one tool, k=3 through all entry points; 2 capabilities, 2 tools, k=2; 3 capabilities, one tool, k=2; all 6 capabilities with one tool and k=1; foreign labels with 2 capabilities, one tool, k=2 (3 capabilities x 2 tools x k=2 and 2 x 2 x k=3 exceed 5 minutes each on 16 cores: outside)"},
     "outside": ["tools whose declared capability attribute is a non-iterable", "real LLM providers", "argument passing to tools"],
     "float_argument": "none",
     "assumptions": ["provider is an adversarial stub", "tool bodies are counters"],
